@@ -32,6 +32,11 @@ def pipeline(rep, pid, tier, cfgname):
 
 def run(rep, tier):
     recs, bad = pipeline(rep, "C14", tier, "Trace_C14.cfg")
+    for i in sorted({int(t.split(",")[0].strip()) for t in rep.last_trace_result.tuples("ORDER")}):
+        r = recs[i - 1]
+        table = any(t in (r.get("out") or "") for t in ("<table", "<tbody", "<tr", "<thead", "<caption", "<colgroup", "<tfoot"))
+        rep.violation("html/text-moves-when-the-output-is-parsed-again/%s" % ("inside-table" if table else "elsewhere"),
+                      {"config": r["cfg"], "output": r.get("out"), "doc_kind": r["kind"], "after": r["after"], "reparsed": r["reparsed"]})
     for i in bad:
         r = recs[i - 1]
         cls = "html/panic" if r["panic"] else "html/output-not-as-specified-or-unsafe"
